@@ -14,8 +14,12 @@ ID = 'C10'
 GENS = ['rw']
 TARGETS = ['BC.Props.C10']
 PROP_FILES = ['BC/Props/C10.lean']
+# source ties: function bodies regenerated from the Python source by translate/t_funcs.py, proved equal to the model functions
+SRC = {'module': 'BC.Props.C10Src', 'file': 'BC/Props/C10Src.lean', 'lemma_files': ['BC/Props/C17Src.lean'],
+       'theorems': ['C10_src_init_trajectory']}
 THEOREMS = ['C10_init_overwrites', 'C10_no_hidden_state', 'C10_history_independent', 'C10_deterministic', 'C10_interleaving', 'C10_interleaving_fresh']
 STATEMENTS = {
+    'C10_src_init_trajectory': 'SOURCE TIE: _init_trajectory(shot_info), executed symbolically from the Python source on every run, assigns every scalar attribute as the corresponding field of Run.ofShot: a function of the configuration and the raw values of the shot alone (no earlier state of the calculator enters)',
     'C10_init_overwrites': 'REGENERATED from the current source, kernel-checked: every self attribute read by trajectory/zero_angle/_integrate and their callees is assigned by '
                            '_init_trajectory (first statement of both public computations) or by the constructor; the only attribute they assign is re-initialised too',
     'C10_no_hidden_state': 'REGENERATED: the only global writers are the two global-step setters; the only stores into non-self objects are set_weapon_zero\'s zero_elevation and '
